@@ -33,6 +33,7 @@ type Tokenizer struct {
 	num       gen.Number
 	rn        rune
 	mode      string
+	cmode     string // mode to return to at the end of a comment
 	exkey     bool
 
 	// OnlyOne returns an error if more than one JSON is in the string or stream.
@@ -421,18 +422,29 @@ func (t *Tokenizer) tokenizeBuffer(buf []byte, last bool) {
 			continue
 		case valSlash:
 			if 256 < len(t.mode) {
+				done := true
 				switch t.mode[256] {
 				case 'n':
 					t.handleNum(off)
 				case 't':
 					t.addToken(string(t.tmp))
+				default:
+					done = false
+				}
+				if done && depth == 0 && t.mode[256] == 'v' {
+					// The slash completed a top level value.
+					t.mi = 0
+					if t.OnlyOne {
+						t.mode = spaceMap
+					}
 				}
 			}
+			t.cmode = t.mode
 			t.mode = commentStartMap
 		case commentStart:
 			t.mode = commentMap
 		case commentEnd:
-			t.mode = valueMap
+			t.mode = t.cmode
 		case charErr:
 			t.byteError(off, t.mode, b)
 		}
